@@ -267,7 +267,7 @@ func sameParam(a, b *scom.MakeTxParam) bool {
 func main() {
 	r := ev.Start("C22", "model_checking")
 	r.Require("accepted", "rejected:blacklisted-destination", "rejected:unregistered-destination", "rejected:replay", "rejected:invalid-authentication",
-		"vote-below-quorum", "ledger:block-checked")
+		"vote-below-quorum", "ledger:block-checked", "concurrent:accepted", "concurrent:schedules-explored")
 	vals := polyenv.Keys(nVal)
 	polyenv.Setup(config.NETWORK_ID_MAIN_NET, vals)
 	polyenv.InstallHeightLedger()
@@ -425,6 +425,10 @@ func main() {
 		ledgerPart(r, vals, evlog)
 	}
 	config.DefConfig.Common.EnableEventLog = true
+	polyenv.Setup(config.NETWORK_ID_MAIN_NET, vals)
+	polyenv.InstallHeightLedger()
+	polyenv.GlobalHeight = H0
+	concurrentPart(r, vals)
 	r.Note("event_log_settings", []bool{true, false})
 	r.Note("routers_covered", covered)
 	r.Note("routers_not_covered", ccm.RoutersWithoutAdapter())
